@@ -270,8 +270,12 @@ class Exporter:
             last_row = rows[len(rows) - 1]
             spine_count = len(last_row)
             merge_tokens_count = sum(1 for column in last_row if column == '*^')
-            join_tokens_count = sum(1 for column in last_row if column == '*v')
-            next_row_spine_count = spine_count + merge_tokens_count - join_tokens_count
+            # adjacent join cells merge into ONE spine: only the cells after the first one of each run disappear
+            join_tokens_count = sum(1 for i, column in enumerate(last_row)
+                                    if column == '*v' and i > 0 and last_row[i - 1] == '*v')
+            # spines that were already terminated in the last row are gone
+            terminated_tokens_count = sum(1 for column in last_row if column == '*-')
+            next_row_spine_count = spine_count + merge_tokens_count - join_tokens_count - terminated_tokens_count
 
             row = []
             for i in range(next_row_spine_count):
